@@ -549,7 +549,7 @@ pub mod events {
         Value::Object(c)
     }
 
-    /// The 15 families: every content key the spec names for the type in any room version, one
+    /// The 16 families: every content key the spec names for the type in any room version, one
     /// unknown content key (`foo`), one unknown top-level key (`foo`), `unsigned`, `redacts`,
     /// `origin` / `membership` / `prev_state`.
     pub fn families() -> Vec<Family> {
@@ -562,6 +562,12 @@ pub mod events {
             f("member-join", base("m.room.member", Some("@alice:sender.org"), member("join", json!({})))),
             f("member-invite", base("m.room.member", Some("@bob:other.org"), member("invite", json!({})))),
             f("member-invite-3pid", base("m.room.member", Some("@bob:sender.org"), member("invite", tpi))),
+            // a third-party invite object that lacks `signed` (what v11 redaction reduces it to is
+            // Unspecified, DESIGN §1.3 — the differential invariants still apply)
+            f(
+                "member-invite-3pid-unsigned",
+                base("m.room.member", Some("@bob:sender.org"), member("invite", json!({"third_party_invite": {"display_name": "bob"}}))),
+            ),
             f("member-leave", base("m.room.member", Some("@alice:sender.org"), member("leave", json!({})))),
             f("member-ban", base("m.room.member", Some("@bob:other.org"), member("ban", json!({})))),
             f("member-knock", base("m.room.member", Some("@alice:sender.org"), member("knock", json!({})))),
